@@ -24,6 +24,8 @@ func main() {
 		os.Exit(cmdDump(os.Args[2:]))
 	case "replay":
 		os.Exit(cmdReplay(os.Args[2:]))
+	case "axioms":
+		os.Exit(cmdAxioms(os.Args[2:]))
 	default:
 		fmt.Fprintln(os.Stderr, "unknown command", os.Args[1])
 		os.Exit(2)
@@ -207,6 +209,9 @@ func cmdCheck(args []string) int {
 	}
 	extra := r.extraObligations(prop, *tier)
 	sel = append(sel, extra...)
+	if *only == "" {
+		sel = append(sel, r.axiomProbeObligation(sel, prop))
+	}
 	kfs := loadKnownFindings()
 	runParallel(len(sel), 8, func(i int) {
 		ob := sel[i]
